@@ -75,8 +75,9 @@ type rsaSig struct {
 }
 
 type certRec struct {
-	der []*Term
-	pub *Value
+	der    []*Term
+	pub    *Value
+	nonRSA bool
 }
 
 func (m *Machine) cs() *cryptoState {
@@ -356,6 +357,15 @@ func registerCrypto(m *Machine) {
 			der = append(der, c.BV(uint64(b), 8))
 		}
 		m.cs().certs = append(m.cs().certs, certRec{der: der, pub: &(*priv).(Struct)[0]})
+		return termSlice(der)
+	}
+	// vfCertNonRSA(tag) []byte: DER bytes of a well-formed certificate whose public key is not RSA (ECDSA).
+	I["vfCertNonRSA"] = func(m *Machine, fr *frame, a []Value, _ *ssa.CallCommon) Value {
+		der := []*Term{}
+		for _, b := range []byte("CERT#ecdsa#" + m.concStr(a[0], "tag")) {
+			der = append(der, c.BV(uint64(b), 8))
+		}
+		m.cs().certs = append(m.cs().certs, certRec{der: der, nonRSA: true})
 		return termSlice(der)
 	}
 	I["(*crypto/rsa.PublicKey).Size"] = func(m *Machine, fr *frame, a []Value, _ *ssa.CallCommon) Value {
@@ -735,7 +745,17 @@ func registerCrypto(m *Machine) {
 					case "Raw":
 						st[i] = a[0]
 					case "PublicKey":
-						st[i] = Iface{T: m.namedPtr("crypto/rsa", "PublicKey"), V: cr.pub}
+						if cr.nonRSA {
+							et := m.P.namedType("crypto/ecdsa", "PublicKey")
+							if et == nil {
+								m.unsupported("crypto/ecdsa not loaded")
+							}
+							kc := new(Value)
+							*kc = m.zero(et)
+							st[i] = Iface{T: types.NewPointer(et), V: kc}
+						} else {
+							st[i] = Iface{T: m.namedPtr("crypto/rsa", "PublicKey"), V: cr.pub}
+						}
 					}
 				}
 				*cell = st
